@@ -485,13 +485,14 @@ impl super::JpegBitstreamReconstructor<'_, '_, '_> {
                             let mut ac_coeffs: Vec<i16> = Vec::with_capacity((se - ss) as usize);
                             for &(x, y) in &jxl_vardct::DCT8_NATURAL_ORDER[ss as usize..se as usize]
                             {
-                                let coeff = hf_coeff.get(x as usize, y as usize) as i16;
+                                // Shift in 32 bits: the coefficient of an invalid frame may be i16::MIN.
+                                let coeff = hf_coeff.get(x as usize, y as usize) as i16 as i32;
                                 let coeff = if coeff < 0 {
                                     -((-coeff) >> al)
                                 } else {
                                     coeff >> al
                                 };
-                                ac_coeffs.push(coeff);
+                                ac_coeffs.push(coeff as i16);
                             }
 
                             let extra_zero_runs = smi.extra_zero_runs.get(&block_idx).copied();
